@@ -10,6 +10,8 @@
 //   r / w   the same through the ReadLock / WriteLock guards
 //   b       (after R: "Rb") a read section in which the thread waits until every `Rb` reader of the
 //           program is inside its read section at the same time (rendezvous, C12)
+//   N       a read section on the Resource under test taken while the thread holds a read lock on a SECOND, unrelated
+//           Resource (only ever read-locked, so it never blocks): locks of different Resources must not influence each other
 //   H       a write section that is held until every `Rb` reader has queued up behind it; when a program
 //           contains H the `Rb` readers issue their request only while H holds the lock, so that they
 //           form one batch of consecutive read requests behind a writer
@@ -37,7 +39,15 @@ static void enter(int t, char k) {
 }
 static void leave(char k) { if (k == 'R') readersIn--; else writersIn--; }
 
+static Resource *g_other = nullptr;
+
 static void section(Resource &res, int t, char op, bool barrier) {
+    if (op == 'N') {
+        g_other->lockRead();
+        section(res, t, 'R', false);
+        g_other->unlockRead();
+        return;
+    }
     char k = (op == 'R' || op == 'r') ? 'R' : 'W';
     std::string ts = std::to_string(t);
     bool hold = op == 'H';
@@ -74,7 +84,14 @@ static void section(Resource &res, int t, char op, bool barrier) {
 }
 
 static void runOne(const std::vector<std::string> &progs) {
-    Resource res;
+    Resource res, other;
+    g_other = &other;
+    {
+        // stable ids: the Resource under test is m0 / c1, the unrelated one m2 / c3 (the trace analysis looks at m0 / c1 only)
+        auto &S = verif::Sched::I();
+        std::unique_lock<decltype(S.G)> lk(S.G);
+        S.objId(&res.m_mutex); S.objId(&res.m_cv); S.objId(&other.m_mutex); S.objId(&other.m_cv);
+    }
     readersIn = writersIn = barrierIn = 0;
     barrierTarget = 0; hasH = false; hHolding = false;
     for (auto &p : progs) for (char c : p) { if (c == 'b') barrierTarget++; if (c == 'H') hasH = true; }
